@@ -268,6 +268,68 @@ fn const_code(c: &rv::Constant) -> String {
     }
 }
 
+/// Text of `field: <value>` in a `Debug` rendering (value up to the next top-level `,` or ` }`).
+fn dbg_field(s: &str, field: &str) -> Option<String> {
+    let key = format!("{field}: ");
+    let start = s.find(&key)? + key.len();
+    let mut depth = 0i32;
+    let mut out = String::new();
+    for ch in s[start..].chars() {
+        match ch {
+            '(' | '[' | '{' => depth += 1,
+            ')' | ']' | '}' if depth > 0 => depth -= 1,
+            ',' | '}' if depth == 0 => break,
+            _ => {}
+        }
+        out.push(ch);
+    }
+    Some(out.trim().to_string())
+}
+
+fn unsome(s: &str) -> Option<String> {
+    s.strip_prefix("Some(").and_then(|r| r.strip_suffix(')')).map(|r| r.to_string())
+}
+
+fn f32_bits_of(text: &str) -> String {
+    text.parse::<f32>().map(|x| x.to_bits().to_string()).unwrap_or_else(|_| "?".into())
+}
+
+fn opt_f32_bits(v: Option<String>) -> String {
+    match v.as_deref().and_then(unsome) {
+        Some(x) => f32_bits_of(&x),
+        None => "none".into(),
+    }
+}
+
+fn b01(v: Option<String>) -> &'static str {
+    if v.as_deref() == Some("true") { "1" } else { "0" }
+}
+
+/// Attributes of the operators fusions create or depend on (compared with the Lean model's prediction).
+fn attr_suffix(op: &dyn rv::Operator) -> String {
+    let d = format!("{op:?}");
+    match op.name() {
+        "Gelu" => format!("{{approx={}}}", b01(dbg_field(&d, "approximate"))),
+        "Swish" => format!("{{alpha={}}}", dbg_field(&d, "alpha").map(|x| f32_bits_of(&x)).unwrap_or_default()),
+        "LayerNormalization" | "RMSNormalization" => format!(
+            "{{axis={},eps={}}}",
+            dbg_field(&d, "axis").unwrap_or_default(),
+            opt_f32_bits(dbg_field(&d, "epsilon"))
+        ),
+        "FusedMatMul" => format!("{{alpha={}}}", opt_f32_bits(dbg_field(&d, "alpha"))),
+        "ReduceMean" => {
+            let axes = match dbg_field(&d, "axes").as_deref().and_then(unsome) {
+                Some(a) => a.trim_matches(|c| c == '[' || c == ']').replace(", ", ";"),
+                None => "none".into(),
+            };
+            format!("{{axes={axes},keep={},noop={}}}", b01(dbg_field(&d, "keep_dims")), b01(dbg_field(&d, "noop_with_empty_axes")))
+        }
+        "Softmax" => format!("{{axis={},flush={}}}", dbg_field(&d, "axis").unwrap_or_default(), b01(dbg_field(&d, "flush_nans_to_zero"))),
+        "AddSoftmax" => format!("{{flush={}}}", b01(dbg_field(&d, "flush_nans_to_zero"))),
+        _ => String::new(),
+    }
+}
+
 fn term(g: &rv::Graph, id: NodeId, depth: usize) -> String {
     if depth > 60 {
         return "...".into();
@@ -288,7 +350,7 @@ fn term(g: &rv::Graph, id: NodeId, depth: usize) -> String {
                         Some(i) => term(g, *i, depth + 1),
                     })
                     .collect();
-                let nm = op.operator().name().to_string();
+                let nm = format!("{}{}", op.operator().name(), attr_suffix(op.operator()));
                 if op.output_ids().len() > 1 {
                     format!("{nm}.{idx}({})", args.join(","))
                 } else {
